@@ -143,6 +143,68 @@ Definition tr_WriteInt64 (data : Z) (tag : Z) (out : list N) : ctl (list N) (lis
     (fun st : (list N) * bool => let '(out, err) := st in
     Return (out, false)).
 
+(* tars/protocol/codec/codec.go: func Buffer.WriteBool *)
+Definition tr_WriteBool (data : bool) (tag : Z) (out : list N) : ctl (list N) (list N * bool) :=
+  let tmp := 0 in
+    bindc (if data
+      then let tmp := 1 in
+        Next (out, tmp)
+      else Next (out, tmp))
+    (fun st : (list N) * Z => let '(out, tmp) := st in
+    go_call (tr_WriteInt8 tmp tag out) (fun r__ => let '(out, err__) := r__ in
+    Return (out, err__))).
+
+(* tars/protocol/codec/codec.go: func Buffer.WriteUint8 *)
+Definition tr_WriteUint8 (data : Z) (tag : Z) (out : list N) : ctl (list N) (list N * bool) :=
+  go_call (tr_WriteInt16 data tag out) (fun r__ => let '(out, err__) := r__ in
+    Return (out, err__)).
+
+(* tars/protocol/codec/codec.go: func Buffer.WriteUint16 *)
+Definition tr_WriteUint16 (data : Z) (tag : Z) (out : list N) : ctl (list N) (list N * bool) :=
+  go_call (tr_WriteInt32 data tag out) (fun r__ => let '(out, err__) := r__ in
+    Return (out, err__)).
+
+(* tars/protocol/codec/codec.go: func Buffer.WriteUint32 *)
+Definition tr_WriteUint32 (data : Z) (tag : Z) (out : list N) : ctl (list N) (list N * bool) :=
+  go_call (tr_WriteInt64 data tag out) (fun r__ => let '(out, err__) := r__ in
+    Return (out, err__)).
+
+Definition k_codec_STRING4 : Z := 7.
+Definition k_codec_STRING1 : Z := 6.
+(* tars/protocol/codec/codec.go: func Buffer.WriteString *)
+Definition tr_WriteString (data : (list N)) (tag : Z) (out : list N) : ctl (list N) (list N * bool) :=
+  let err : bool := false in
+    bindc (if (255 <? (go_len data))
+      then go_call (tr_WriteHead k_codec_STRING4 tag out) (fun r__ => let '(out, err) := r__ in
+        bindc (if (negb (Bool.eqb err false))
+          then Return (out, err)
+          else Next out)
+        (fun out : (list N) =>
+        let out := out ++ (go_emit_u32 (wrapU 32 (go_len data))) in let err := false in
+        bindc (if (negb (Bool.eqb err false))
+          then Return (out, err)
+          else Next out)
+        (fun out : (list N) =>
+        Next (out, err))))
+      else go_call (tr_WriteHead k_codec_STRING1 tag out) (fun r__ => let '(out, err) := r__ in
+        bindc (if (negb (Bool.eqb err false))
+          then Return (out, err)
+          else Next out)
+        (fun out : (list N) =>
+        let out := out ++ (go_emit_u8 (wrapU 8 (go_len data))) in let err := false in
+        bindc (if (negb (Bool.eqb err false))
+          then Return (out, err)
+          else Next out)
+        (fun out : (list N) =>
+        Next (out, err)))))
+    (fun st : (list N) * bool => let '(out, err) := st in
+    let out := out ++ (go_emit_bytes data) in let err := false in
+    bindc (if (negb (Bool.eqb err false))
+      then Return (out, err)
+      else Next out)
+    (fun out : (list N) =>
+    Return (out, false))).
+
 Definition k_endpoint_EStaticWeight : Z := 1.
 Definition k_selector_minStaticWeightLimit : Z := 10.
 Definition k_selector_maxStaticWeightLimit : Z := 100.
